@@ -1799,10 +1799,11 @@ class Node:
         """
         realm_name = self.realm_name.lower()
         dest_realm = getattr(message, "destination_realm", None)
-        if dest_realm is None and not hasattr(message, "avp_def"):
+        if dest_realm is None and not getattr(message, "avp_def", None):
             # a message without attribute definitions (a command without
-            # python implementation, a plain `Message` given a list of AVPs)
-            # carries its realm in the AVP list only
+            # python implementation, one decoded with `plain_msg`, a plain
+            # `Message` given a list of AVPs) carries its realm in the AVP
+            # list only
             for avp in message.avps:
                 if (avp.code == constants.AVP_DESTINATION_REALM and
                         not avp.vendor_id):
